@@ -24,7 +24,10 @@ use vharness::{Rng, Value};
 
 const EAGAIN: i32 = 11;
 const EINTR: i32 = 4;
-const SPIN_CAP: u32 = 5000;
+const ETIMEDOUT: i32 = 110;
+/// a thread re-reading an unchanged word this many times in a row never blocks: the judge calls a
+/// load event with n >= SPIN_CAP unbounded spinning (the code's own spin budget is 100)
+const SPIN_CAP: u32 = 4096;
 
 thread_local! {
     static TID: Cell<usize> = const { Cell::new(0) };      // 0 = not a controlled thread
@@ -75,6 +78,9 @@ struct Th {
     spins: u32,
     /// number of lock-API calls started (part of the abstract state used by the coverage-guided explorer)
     calls: u32,
+    /// parked in a FUTEX_WAIT that carries a timeout
+    timed: bool,
+    timeout_used: u32,
 }
 
 struct Shared {
@@ -101,6 +107,8 @@ struct Shared {
     started: usize,
     nthreads: usize,
     run_over: bool,
+    /// last value seen of tiny_std::verif::timed_wait_calls()
+    timed_seen: u32,
 }
 
 struct Ctl {
@@ -391,6 +399,11 @@ fn hook_wait(word: &CoreAtomicU32, expect: u32) -> Option<i32> {
     let mut s = lock_shared();
     s.note_op(me);
     s.th[me].last_load = None;
+    // one thread runs at a time: an increment of the shim's counter belongs to this call
+    let tw = verif::timed_wait_calls();
+    let timed = tw != s.timed_seen;
+    s.timed_seen = tw;
+    let tmo = if timed { ",\"timeout\":true" } else { "" };
     let rw = s.rw;
     let loc = s.loc_name(addr);
     let li = s.loc_index(addr);
@@ -399,15 +412,16 @@ fn hook_wait(word: &CoreAtomicU32, expect: u32) -> Option<i32> {
     if cur != expect {
         let tail = format!("{}{}", s.step_tag(), s.snapshot());
         s.log
-            .push(format!("{{\"ev\":\"wait\",\"t\":{me},\"loc\":\"{loc}\",\"exp\":{e},\"res\":\"eagain\"{tail}}}"));
+            .push(format!("{{\"ev\":\"wait\",\"t\":{me},\"loc\":\"{loc}\",\"exp\":{e},\"res\":\"eagain\"{tmo}{tail}}}"));
         return Some(-EAGAIN);
     }
     s.queues[li].push(me);
     s.th[me].state = TState::Parked(addr);
+    s.th[me].timed = timed;
     s.th[me].wake_code = None;
     let tail = format!("{}{}", s.step_tag(), s.snapshot());
     s.log
-        .push(format!("{{\"ev\":\"wait\",\"t\":{me},\"loc\":\"{loc}\",\"exp\":{e},\"res\":\"parked\"{tail}}}"));
+        .push(format!("{{\"ev\":\"wait\",\"t\":{me},\"loc\":\"{loc}\",\"exp\":{e},\"res\":\"parked\"{tmo}{tail}}}"));
     let _ = drive(&mut s, me);
     loop {
         if s.abort {
@@ -680,15 +694,17 @@ enum Choice {
     GrantWake(usize, Vec<usize>),
     Spurious(usize),
     Eintr(usize),
+    /// a FUTEX_WAIT with a timeout returns ETIMEDOUT (offered only for timed waits)
+    Timeout(usize),
 }
 impl Choice {
     fn thread(&self) -> usize {
         match self {
-            Choice::Grant(t) | Choice::GrantFail(t) | Choice::GrantWake(t, _) | Choice::Spurious(t) | Choice::Eintr(t) => *t,
+            Choice::Grant(t) | Choice::GrantFail(t) | Choice::GrantWake(t, _) | Choice::Spurious(t) | Choice::Eintr(t) | Choice::Timeout(t) => *t,
         }
     }
     fn is_env(&self) -> bool {
-        matches!(self, Choice::Spurious(_) | Choice::Eintr(_))
+        matches!(self, Choice::Spurious(_) | Choice::Eintr(_) | Choice::Timeout(_))
     }
     fn json(&self) -> String {
         match self {
@@ -697,6 +713,7 @@ impl Choice {
             Choice::GrantWake(t, w) => format!("[{t},\"w\",{w:?}]"),
             Choice::Spurious(t) => format!("[{t},\"s\"]"),
             Choice::Eintr(t) => format!("[{t},\"i\"]"),
+            Choice::Timeout(t) => format!("[{t},\"o\"]"),
         }
     }
     fn from_json(v: &Value) -> Option<Choice> {
@@ -711,6 +728,7 @@ impl Choice {
             )),
             Some("s") => Some(Choice::Spurious(t)),
             Some("i") => Some(Choice::Eintr(t)),
+            Some("o") => Some(Choice::Timeout(t)),
             _ => None,
         }
     }
@@ -721,6 +739,7 @@ struct Budgets {
     spur: u32,
     eintr: u32,
     weak: u32,
+    timeouts: u32,
 }
 
 struct RunSpec {
@@ -789,6 +808,9 @@ fn enabled(s: &Shared, b: &Budgets) -> Vec<Choice> {
                 if s.th[t].eintr_used < b.eintr {
                     v.push(Choice::Eintr(t));
                 }
+                if s.th[t].timed && s.th[t].timeout_used < b.timeouts {
+                    v.push(Choice::Timeout(t));
+                }
             }
             _ => {}
         }
@@ -801,11 +823,13 @@ enum Chooser {
     Dfs(Dfs),
     Random(Random),
     Cover(Cover),
+    Hold,
 }
 impl Chooser {
     fn pick(&mut self, step: usize, choices: &[Choice], last: Option<usize>, yielded: bool, h: u64) -> Result<usize, String> {
         match self {
             Chooser::Cover(c) => c.pick(h, choices, last),
+            Chooser::Hold => Ok(hold_pick(choices, last, h)),
             Chooser::Follow(f) => f.pick(step, choices),
             Chooser::Dfs(d) => d.pick(step, choices, last, yielded),
             Chooser::Random(r) => r.pick(choices, last),
@@ -857,7 +881,12 @@ fn drive(s: &mut Shared, me: usize) -> Option<Grant> {
         let following = s.diverged.is_none() && step < s.follow_len;
         let idx = if s.diverged.is_none() && (following || s.follow_len == usize::MAX) {
             let mut ch = s.chooser.take().expect("chooser");
-            let h = if matches!(ch, Chooser::Cover(_)) { abs_hash(s) } else { 0 };
+            let h = match ch {
+                Chooser::Cover(_) => abs_hash(s),
+                // bit t set: thread t holds a guard (or is dropping it)
+                Chooser::Hold => (1..s.th.len()).filter(|t| s.th[*t].holding != 0).fold(0u64, |m, t| m | (1 << t)),
+                _ => 0,
+            };
             let r = ch.pick(step, &choices, last, yielded, h);
             s.chooser = Some(ch);
             match r {
@@ -900,13 +929,16 @@ fn drive(s: &mut Shared, me: usize) -> Option<Grant> {
                 c.signal(t);
                 return None;
             }
-            Choice::Spurious(t) | Choice::Eintr(t) => {
+            Choice::Spurious(t) | Choice::Eintr(t) | Choice::Timeout(t) => {
                 let t = *t;
                 let eintr = matches!(ch, Choice::Eintr(_));
+                let tmo = matches!(ch, Choice::Timeout(_));
                 if let TState::Parked(addr) = s.th[t].state {
                     let li = s.loc_index(addr);
                     s.queues[li].retain(|x| *x != t);
-                    if eintr {
+                    if tmo {
+                        s.th[t].timeout_used += 1;
+                    } else if eintr {
                         s.th[t].eintr_used += 1;
                     } else {
                         s.th[t].spur_used += 1;
@@ -915,9 +947,9 @@ fn drive(s: &mut Shared, me: usize) -> Option<Grant> {
                     let tail = format!("{}{}", s.step_tag(), s.snapshot());
                     s.log.push(format!(
                         "{{\"ev\":\"woken\",\"t\":{t},\"cause\":\"{}\"{tail}}}",
-                        if eintr { "eintr" } else { "spurious" }
+                        if tmo { "timeout" } else if eintr { "eintr" } else { "spurious" }
                     ));
-                    s.to_release.push((t, if eintr { -EINTR } else { 0 }));
+                    s.to_release.push((t, if tmo { -ETIMEDOUT } else if eintr { -EINTR } else { 0 }));
                 }
             }
         }
@@ -998,6 +1030,8 @@ fn run_once(spec: &RunSpec, chooser: Chooser, follow_len: usize) -> (RunResult, 
                 yielded: false,
                 spins: 0,
                 calls: 0,
+                timed: false,
+                timeout_used: 0,
             })
             .collect();
         s.log = Vec::new();
@@ -1119,7 +1153,7 @@ fn progs_of(v: &Value) -> Vec<Vec<String>> {
 }
 fn budgets_of(v: &Value) -> Budgets {
     let g = |k: &str| v.get(k).and_then(Value::as_u64).unwrap_or(0) as u32;
-    Budgets { spur: g("spur"), eintr: g("eintr"), weak: g("weak") }
+    Budgets { spur: g("spur"), eintr: g("eintr"), weak: g("weak"), timeouts: v.get("timeouts").and_then(Value::as_u64).unwrap_or(12) as u32 }
 }
 fn spec_of(v: &Value) -> RunSpec {
     RunSpec {
@@ -1143,7 +1177,7 @@ fn mode_replay(path: &str) {
         let v: Value = serde_json::from_str(&line).expect("plan json");
         let mut spec = spec_of(&v);
         // when following a plan the environment budgets are whatever the plan asks for
-        spec.budgets = Budgets { spur: 1000, eintr: 1000, weak: 1000 };
+        spec.budgets = Budgets { spur: 1000, eintr: 1000, weak: 1000, timeouts: 1000 };
         spec.snapshots = v.get("snap").and_then(Value::as_bool).unwrap_or(true);
         let sched: Vec<Choice> = v["sched"].as_array().map(|a| a.iter().filter_map(Choice::from_json).collect()).unwrap_or_default();
         let n = sched.len();
@@ -1306,7 +1340,7 @@ fn abs_hash(s: &Shared) -> u64 {
     }
     for t in 1..s.th.len() {
         let th = &s.th[t];
-        (th.holding, th.unlocking, th.calls, th.spur_used, th.eintr_used, th.weak_used).hash(&mut h);
+        (th.holding, th.unlocking, th.calls, th.spur_used, th.eintr_used, th.weak_used, th.timeout_used).hash(&mut h);
         match &th.state {
             TState::Announced(Pending::Atomic(op)) => {
                 (1u8, op.kind as u8, s.locs.iter().position(|a| *a == op.addr), op.expect, op.arg, op.site.line(), op.site.column()).hash(&mut h);
@@ -1353,6 +1387,37 @@ impl Cover {
         let mut r = Random { rng: Rng::new(self.rng.next()), env_pct: 5 };
         r.pick(choices, last)
     }
+}
+
+/// The long-hold scheduler: a thread that holds a guard is not scheduled as long as anything else
+/// can happen (other threads' steps first, then time-outs of timed futex waits); legal, since the
+/// property quantifies over every schedule in which holders eventually release.  Waiters must park
+/// and must still be there (not panic, not spin for ever) when the holder finally runs.
+fn hold_pick(choices: &[Choice], last: Option<usize>, holders: u64) -> usize {
+    let free = |c: &Choice| !c.is_env() && !matches!(c, Choice::GrantFail(_)) && holders & (1 << c.thread()) == 0;
+    if let Some(l) = last {
+        if let Some(i) = choices.iter().position(|c| free(c) && c.thread() == l) {
+            return i;
+        }
+    }
+    if let Some(i) = choices.iter().position(free) {
+        return i;
+    }
+    if let Some(i) = choices.iter().position(|c| matches!(c, Choice::Timeout(_))) {
+        return i;
+    }
+    choices.iter().position(|c| !c.is_env() && !matches!(c, Choice::GrantFail(_))).unwrap_or(0)
+}
+
+fn mode_hold(path: &str) {
+    let v: Value = serde_json::from_str(&std::fs::read_to_string(path).expect("spec")).expect("spec json");
+    let spec = spec_of(&v);
+    let stdout = std::io::stdout();
+    let mut out = std::io::BufWriter::with_capacity(1 << 20, stdout.lock());
+    let (r, _) = run_once(&spec, Chooser::Hold, usize::MAX);
+    emit_run(&mut out, 0, &spec, "null", "hold", &r);
+    writeln!(out, "{{\"ev\":\"explored\",\"runs\":1,\"complete\":true}}").unwrap();
+    out.flush().unwrap();
 }
 
 fn mode_cover(path: &str) {
@@ -1710,7 +1775,7 @@ fn main() {
             step: -1,
             snapshots: false,
             chooser: None,
-            budgets: Budgets { spur: 0, eintr: 0, weak: 0 },
+            budgets: Budgets { spur: 0, eintr: 0, weak: 0, timeouts: 0 },
             max_steps: 0,
             follow_len: 0,
             sched: Vec::new(),
@@ -1721,6 +1786,7 @@ fn main() {
             started: 0,
             nthreads: 0,
             run_over: true,
+            timed_seen: 0,
         }),
         flags: std::array::from_fn(|_| CoreAtomicU32::new(0)),
     });
@@ -1740,6 +1806,10 @@ fn main() {
         "cover" => {
             verif::install(&HOOKS);
             mode_cover(&args[2]);
+        }
+        "hold" => {
+            verif::install(&HOOKS);
+            mode_hold(&args[2]);
         }
         "real" => mode_real(&args[2]),
         _ => {
